@@ -550,6 +550,8 @@ impl ImageWithRegion {
             if let Some(out) = out {
                 *g = ImageBuffer::F32(out);
             }
+            // Regions are kept in the coordinates of the fully upsampled frame.
+            *region = region.upsample(target_factor);
             *shift = ChannelShift::from_shift(target_factor);
         }
 
